@@ -1,8 +1,9 @@
 (* C02/Props.v — property theorems only.  Property C02: rescaled integer storage — bounded
    error, no wrap-around, or a loud refusal.  Each theorem is closed by `exact <lemma>` and
    followed by Print Assumptions. *)
-From Coq Require Import ZArith QArith Qabs List Bool Lia Floats.SpecFloat.
-From NV Require Import C02.Model C02.Tables C02.Lemmas C02.ModelQ C02.LemmasQ C02.ModelF C02.LemmasF.
+From Coq Require Import ZArith QArith Qabs Reals List Bool Lia Floats.SpecFloat.
+From Flocq Require Import Core.Zaux Core.Ulp Core.FLT IEEE754.BinarySingleNaN.
+From NV Require Import C02.Model C02.Tables C02.Lemmas C02.ModelQ C02.LemmasQ C02.ModelF C02.LemmasF C02.LemmasFW.
 Import ListNotations.
 Open Scope Z_scope.
 
@@ -131,11 +132,74 @@ Theorem C02_nan_inf : forall s i a b n, ~ (s == 0)%Q -> a <= b ->
 Proof. exact nan_inf_q. Qed.
 Print Assumptions C02_nan_inf.
 
+(* ---------------------------------------------------------------- exact float layer: no wrap *)
+
+(* C02_no_wrap_float: the exact-float counterpart of C02_no_wrap, for every working format w.
+   For ANY element x, slope and intercept (whatever (x - inter)/slope rounds to: finite, +-inf,
+   or NaN when nan2zero supplies a fill value), clip bounds lo <= hi that are finite floats
+   with integer values zlo, zhi inside a safe range [A, Z] of the integer type: the float
+   handed to the final cast is finite, its C truncation z lies in [A, Z] (in [zlo, zhi] unless
+   it is the nan fill), the cast is value-preserving and wrap is the identity.  Premise for
+   nan2zero = False: the scaled value is not NaN (array_to_file turns nan2zero off only for
+   integer input or NaN-free float input). *)
+Theorem C02_no_wrap_float : forall w t sl it lo hi nf x zlo zhi A Z,
+  1 <= iwidth t ->
+  f_trunc w lo = Some zlo -> f_trunc w hi = Some zhi -> fle w lo hi = true ->
+  imin t <= A -> A <= zlo -> zhi <= Z -> Z <= imax t ->
+  match nf with
+  | Some n => exists zn, f_trunc w n = Some zn /\ A <= zn <= Z
+  | None => is_nan_sf (frint w (scale_w w sl it x)) = false
+  end ->
+  exists z, f_trunc w (elem_f w sl it lo hi nf x) = Some z
+            /\ A <= z <= Z
+            /\ (is_nan_sf (frint w (scale_w w sl it x)) = false -> zlo <= z <= zhi)
+            /\ cast_to_int w t (elem_f w sl it lo hi nf x) = (z, false)
+            /\ wrap t z = z.
+Proof. exact no_wrap_float. Qed.
+Print Assumptions C02_no_wrap_float.
+
+(* ... and with the bounds array_to_file actually computes on this platform: for the three
+   working formats x eight integer types (complete enumeration by vm_compute: shared_range
+   succeeds, its bounds convert exactly to the working format, in order, inside the type),
+   ANY scaled thresholds p_mn, p_mx that are valid non-NaN floats (in either order, +-inf
+   included), through post_bounds_f (swap, intersection, ordering repair of fix 104ec932):
+   the value handed to the cast is an integer z inside the safe range, no wrap.  Premises kept
+   explicit (simple IEEE facts, not proved here): p_mn/p_mx are not NaN, and the nan fill lies
+   in the safe range (array_to_file checks or clips it). *)
+Theorem C02_no_wrap_float_platform : forall w t sl it p_mn p_mx nf x,
+  In w [K32; K64; K80] -> In t all_itys ->
+  bnan w p_mn = false -> bnan w p_mx = false ->
+  exists bmn bmx, sr_k w t = Ok (bmn, bmx) /\ imin t <= bmn /\ bmx <= imax t /\
+    let both_mn := f_of_Z w bmn in let both_mx := f_of_Z w bmx in
+    (match nf with
+     | Some n => inrange w both_mn both_mx n
+     | None => is_nan_sf (frint w (scale_w w sl it x)) = false
+     end ->
+     let '(q_mn, q_mx) := post_bounds_f w p_mn p_mx both_mn both_mx in
+     exists z, cast_to_int w t (elem_f w sl it q_mn q_mx nf x) = (z, false)
+               /\ bmn <= z <= bmx /\ wrap t z = z).
+Proof. exact no_wrap_platform. Qed.
+Print Assumptions C02_no_wrap_float_platform.
+
+(* one quantitative piece of the float gap, read side, over the rounding operator RN64 (round to
+   nearest even onto binary64, which Flocq's Bmult_correct/Bplus_correct identify with the
+   float operations when nothing overflows): RN(RN(raw*slope) + inter) is within half an ulp
+   of the product plus half an ulp of the sum of the exact raw*slope + inter *)
+Theorem C02_read_error_real : forall p i : R,
+  (Rabs (RN64 (RN64 p + i) - (p + i))
+   <= / 2 * ulp radix2 (FLT_exp (-1074) 53) p + / 2 * ulp radix2 (FLT_exp (-1074) 53) (RN64 p + i))%R.
+Proof. exact read_error_real. Qed.
+Print Assumptions C02_read_error_real.
+
 (* C02_float_gap_partial -- NOT PROVED (listed in evidence `unproved_statements`).  Full statement:
    for the exact float pipeline (ModelF.writer_write then apply_read_scaling), every finite
    element reloads within |slope|/2 + (|inter| + max|x|) * 2^-22 + |slope| * 2^-20 of its value.
-   Missing: a Flocq error analysis of the float32 rounding of slope and intercept and of the
-   working-precision subtraction/division across three formats, and an exclusion of subnormal
+   Proved pieces: C02_no_wrap_float (no wrap in the float layer) and C02_read_error_real (read side,
+   rounding-operator level).  Missing: the identification B2R (fmul/fadd ...) = RN64 (...) for the
+   reload (Bmult_correct/Bplus_correct with their overflow guards, exactness of int32 -> binary64
+   and float32 -> binary64 conversion = format inclusion), a Flocq error analysis of the float32
+   rounding of slope and intercept and of the working-precision subtraction/division on the write
+   side across three formats, and an exclusion of subnormal
    slopes (finding S-C02c shows the statement is false there).  The gap is measured instead:
    the float layer is compared bit for bit with the implementation and the bound is evaluated
    on every case by the harness. *)
